@@ -252,7 +252,10 @@ impl StateMachine<'_> {
                 &mut self.painter,
                 &mut self.mode_info,
                 self.config,
-            )
+            )?;
+            self.handled_diff_header_header_line_file_pair
+                .clone_from(&self.current_file_pair);
+            Ok(())
         } else if !self.config.color_only
             && self.should_handle()
             && self.handled_diff_header_header_line_file_pair != self.current_file_pair
